@@ -178,6 +178,7 @@ type Sim struct {
 	dbs               []*trackedDB
 	FaultsFired       [NumFaultKinds]int64
 	poolReuse         int // 0: fifo fresh (no reuse), 1: PRNG choice, 2: always reuse most recent
+	poolKeepStale     bool
 	fakeFD            int
 	l2socks           []l2sock
 	ReadFileLog       []ReadFileRec
@@ -185,6 +186,7 @@ type Sim struct {
 	TimeSkipped       int64
 	simPaths          []string
 	simDirs           []string
+	KeepMtime         bool // operator replaces files preserving their modification time
 	timerOnlyAdvances int
 	userLog           []UserRec
 	InotifyQueueMax   int
